@@ -196,7 +196,8 @@ def _(ctx):
             digits = z3.Function("currency.f6", z3.IntSort(), z3.IntSort())(me.field(1, "Rc<types::CurrencyInfo>").id) if kind == "MoneyItem" else 2
             if kind == "MoneyItem":
                 ex.assumptions.append(z3.And(digits >= 0, digits <= 4))   # config.json currencies have 0..3 decimal digits
-            rp = ("m_replay_calc_percent", [(kind == "MoneyItem", "bool"), (op == "Add", "bool"), (x, "f64"), (p, "f64"), (digits, "u8")])
+            ntype = me.field(1, "types::NumberType").tag() if kind == "NumberItem" else z3.IntVal(0)
+            rp = ("m_replay_calc_percent", [(kind == "MoneyItem", "bool"), (op == "Add", "bool"), (x, "f64"), (p, "f64"), (digits, "u8"), (ntype, "u8")])
             want = x * (1 + p / 100) if op == "Add" else x * (1 - p / 100)
             if kind == "MoneyItem" and op == "Sub":
                 ctx.probe("money_sub_percent", ex, outs, lambda o: some_item(o).f[0].t, [(x, 6), (p, 50)])
@@ -1219,6 +1220,17 @@ def result_number(o):
     return None
 
 
+def result_percent(o):
+    """Ok(Rc<Item(PercentItem(v))>) -> FloatV or None"""
+    v = o.value
+    if isinstance(v, EnumV) and v.enum == "Result" and v.variant == "Ok":
+        a = v.f[0]
+        if isinstance(a, EnumV) and a.variant == "Item" and isinstance(a.f[0], ItemV) and a.f[0].kind == "PercentItem":
+            f0 = a.f[0].f[0] if not isinstance(a.f[0].f, SymV) else a.f[0].f.field(0, "f64")
+            return f0
+    return None
+
+
 def shapes(max_len):
     import itertools
     for n in range(1, max_len + 1):
@@ -1586,9 +1598,10 @@ def _(ctx):
     outs, _ = run_fn(ex, "duration_rules::to_duration", args)
     ctx.part.functions.append("duration_rules::to_duration")
     ctx.paths += len(outs)
-    va, _ = tz_fields(a, "Time")
-    vb, _ = tz_fields(b, "Time")
-    rp = ("m_replay_to_duration_times", [(va.days, "i64"), (va.secs, "u32"), (vb.days, "i64"), (vb.secs, "u32")])
+    va, offa = tz_fields(a, "Time")
+    vb, offb = tz_fields(b, "Time")
+    ex.assumptions.append(z3.And(offa >= -12 * 60, offa <= 14 * 60, offb >= -12 * 60, offb <= 14 * 60))
+    rp = ("m_replay_to_duration_times", [(va.days, "i64"), (va.secs, "u32"), (vb.days, "i64"), (vb.secs, "u32"), (offa, "i32"), (offb, "i32")])
     n = 0
     for o in outs:
         if o.kind == "panic":
@@ -1838,6 +1851,7 @@ class LineRunner:
         self.f_parse = pick(r"syntax::<impl at src/syntax/mod\.rs[^>]*>::parse$")[0]
         self.f_exec = pick(r"<impl at src/compiler/mod\.rs[^>]*>::execute$")[0]
         ex.handlers.insert(0, (_re.compile(r"^UiTokenCollection::(sort|update_tokens)$"), models.h_opaque))
+        models.install_borrow_tracking(ex)     # RefCell double borrows (variable slots) panic as they do natively
         self.n = 0
 
     def initial_path(self):
@@ -1858,6 +1872,9 @@ class LineRunner:
                 pos += 2
             elif kind == "d":
                 infos.append(tinfo(pos, "1h", EnumV("TokenType", "Duration", [DurationV(z3.IntVal(3600))])))
+                pos += 3
+            elif kind == "p":
+                infos.append(tinfo(pos, "1%", EnumV("TokenType", "Percent", [v])))
                 pos += 3
             else:
                 infos.append(tinfo(pos, v, EnumV("TokenType", "Operator", [IntV(ord(v), 32, False)])))
@@ -1895,14 +1912,14 @@ class LineRunner:
                         if o4.kind == "panic":
                             yield "panic", o4.path, o4.msg
                         elif isinstance(o4.value, EnumV) and o4.value.variant == "Ok":
-                            yield "value", o4.path, result_number(o4)
+                            yield "value", o4.path, result_number(o4) or result_percent(o4)
                         else:
                             yield "error", o4.path, None
 
 
 from mirsmt.execmir import Outcome as execmir_Outcome  # noqa: E402
 
-NAMES = {"x": ["x"], "y": ["y"], "xy": ["x", "y"], "xyz": ["x", "y", "z"]}
+NAMES = {"x": ["x"], "y": ["y"], "xy": ["x", "y"], "xyz": ["x", "y", "z"], "u-v": ["u", "-", "v"], "w": ["w"]}
 
 
 def c03_statements():
@@ -1922,6 +1939,13 @@ def c03_statements():
     sts.append(("xyz=c", "xyz", "const"))           # a three-word name
     sts.append(("use xyz+x", None, "use2:xyz:x"))   # a long name followed by an operator and another name
     sts.append(("use xy y", None, "juxt:xy:y"))     # a name directly followed by another name (juxtaposition adds)
+    # 22..24: a name with an operator character inside ('u-v': net-income, p/e ratio), bound, re-bound and used
+    sts.append(("u-v=c", "u-v", "const"))
+    sts.append(("u-v=u-v+c", "u-v", "self"))
+    sts.append(("use u-v", None, "use:u-v"))
+    # 25..26: a variable that holds a percentage, used behind a sign: c - -w is c + w% = c (1 + w/100)
+    sts.append(("w=c%", "w", "constpct"))
+    sts.append(("use c - -w", None, "signedpct:w"))
     return sts
 
 
@@ -1934,7 +1958,7 @@ def program_is_defined(prog):
         need = []
         if kind == "self":
             need = [lhs]
-        elif kind.startswith(("use:", "copy:", "mul:", "usecap:")):
+        elif kind.startswith(("use:", "copy:", "mul:", "usecap:", "signedpct:")):
             need = [kind.split(":")[1]]
         elif kind.startswith(("use2:", "juxt:")):
             need = kind.split(":")[1:]
@@ -1970,10 +1994,17 @@ def check_program_body(prog):
             labels.append(label)
             c = ex.fsym("c%d" % li)
             toks, want = [], None
-            name_toks = lambda nm: [("t", w) for w in NAMES[nm]]
+            name_toks = lambda nm: [(("o", w) if (len(w) == 1 and not w.isalnum()) else ("t", w)) for w in NAMES[nm]]
             if lhs:
                 toks += name_toks(lhs) + [("o", "=")]
-            if kind == "constcap":
+            if kind == "constpct":
+                toks = name_toks(lhs) + [("o", "="), ("p", c)]
+                want = c.t
+            elif kind.startswith("signedpct:"):
+                nm = kind.split(":")[1]
+                toks += [("n", c), ("o", "-"), ("o", "-")] + name_toks(nm)
+                want = c.t * (1 + env[nm] / 100)
+            elif kind == "constcap":
                 toks = [("t", w.upper()) for w in NAMES[lhs]] + [("o", "="), ("n", c)]
                 want = c.t
             elif kind.startswith("usecap:"):
@@ -2092,7 +2123,8 @@ def c03_programs(max_len, with_prefix=True):
                 seen.add(pr)
                 yield pr
         # all four names bound (also the three-word name), then any statement; and the capital spelling first
-        for pre2 in ((idx["x=c"], idx["y=c"], idx["xy=c"], idx["xyz=c"]), (idx["X=c"], idx["x=c"]), (idx["X=c"], idx["y=c"], idx["x=x+c"])):
+        for pre2 in ((idx["x=c"], idx["y=c"], idx["xy=c"], idx["xyz=c"]), (idx["X=c"], idx["x=c"]), (idx["X=c"], idx["y=c"], idx["x=x+c"]),
+                     (idx["u-v=c"], idx["u-v=c"]), (idx["u-v=c"], idx["u-v=u-v+c"], idx["u-v=c"]), (idx["x=c"], idx["w=c%"], idx["w=c%"])):
             for t in range(n):
                 pr = pre2 + (t,)
                 if program_is_defined(pr) and pr not in seen:
@@ -4185,3 +4217,154 @@ def _(ctx):
 @spec("C08", "m_literals_wide", "the reading kernels of all three literal tokenisers on every written shape of sign x {1,2,3 | 1,3 | 2,3 | 3,3 | 1,3,3 | 2,3,3 | 3,3,3 digits} x {0..3 fraction digits} under the four separator conventions", tiers=("thorough",))
 def _(ctx):
     number_literal_spec(ctx, ("number_regex_parser", "percent_regex_parser", "money_regex_parser"), wide=True)
+
+
+
+@spec("C01", "m_time_literal", "the clock-time tokeniser's kernel registered for C01 as well: no panic on any match of the configured time patterns under any configured zone offset (-12 h .. +14 h)")
+def _(ctx):
+    _reuse("C11", "m_time_literal")(ctx)
+
+
+
+@spec("C01", "m_programs_total", "every straight-line program of <= 2 lines over C03's statement templates (assignments, self-referential re-assignments, uses, failing lines) through the real variable machinery and interpreter (MIR, RefCell borrows of the variable slots tracked): no line panics - in particular re-assigning a variable in terms of itself - and every line gets its value")
+def _(ctx):
+    c03_spec(ctx, 2)
+
+
+
+# ============================================================================ C11: the shown clock time
+@spec("C11", "m_time_print", "TimeItem::print (MIR; chrono's strftime formatter and format! are observed, not executed): the hour, minute and second that reach the text are those of the wall time (instant + zone offset) modulo 24 hours - in 0..23 / 0..59 / 0..59 for every instant and every offset within -12 h..+14 h - followed by the zone's name")
+def _(ctx):
+    import re as _re5
+    ex = new_exec("real")
+    models.install_fmt(ex)
+    shown = []
+
+    def h_dt_format(ex_, name, args, path, depth, caller):
+        z = models.deref(args[0])
+        fmt = models.deref(args[1])
+        if not (isinstance(fmt, StrV) and fmt.is_concrete() and fmt.t == "%H:%M:%S"):
+            raise Unsupported("strftime format %r" % (fmt,))
+        local = (z.utc.total() + z.off) % 86400
+        yield execmir_Outcome("return", path.event(("clock", [local / 3600, (local / 60) % 60, local % 60])), StrV(z3.String("CLOCK_TEXT")))
+
+    def h_fmt_ints(ex_, name, args, path, depth, caller):
+        a = models.deref(args[0])
+        ints = [x.v.t for x in getattr(a, "args", []) if isinstance(x, FmtArgV) and isinstance(x.v, IntV)]
+        strs = [x.v for x in getattr(a, "args", []) if isinstance(x, FmtArgV) and isinstance(x.v, StrV)]
+        p2 = path.event(("clock", ints)) if ints else path
+        p2 = p2.event(("text_args", strs))
+        yield execmir_Outcome("return", p2, StrV(z3.String("PRINTED")))
+    ex.handlers.insert(0, (_re5.compile(r"^DateTime::<.*>::format::<.*>$|^DateTime::<.*>::format$"), h_dt_format))
+    ex.handlers.insert(0, (_re5.compile(r"^<DelayedFormat<.*> as ToString>::to_string$"), models.h_identity0))
+    ex.handlers.insert(0, (_re5.compile(r"^alloc::fmt::format$"), h_fmt_ints))
+    me = SymV(ex, "self", "payload")
+    cfgv = SymV(ex, "config", "config::SmartCalcConfig")
+    sess = SymV(ex, "session", "session::Session")
+    fn = models.item_impl(ex, "TimeItem", "print")
+    ctx.part.functions.append("compiler::time::print")
+    t = me.field(0, "chrono::NaiveDateTime")
+    zone = me.field(1, "types::TimeOffset")
+    off = zone.field(1, "i32").t
+    name = zone.field(0, "alloc::string::String")
+    ex.assumptions.append(z3.And(off >= -12 * 60, off <= 14 * 60))
+    local = (t.total() + off * 60) % 86400
+    want = [local / 3600, (local / 60) % 60, local % 60]
+    rp = ("m_replay_time_print", [(t.secs, "u32"), (off, "i32")])
+    n = 0
+    for o in ex.run(fn, [RefV(ItemV("TimeItem", me)), RefV(cfgv), RefV(sess)], Path()):
+        ctx.paths += 1
+        if o.kind == "panic":
+            ctx.reachable(ex, o.path, "TimeItem::print can panic: " + o.msg, rp)
+            continue
+        clocks = [e[1] for e in o.path.events if e[0] == "clock"]
+        if len(clocks) != 1 or len(clocks[0]) != 3:
+            ctx.reachable(ex, o.path, "TimeItem::print does not put exactly one hour:minute:second triple into the text", rp)
+            continue
+        n += 1
+        got = clocks[0]
+        ctx.claim(ex, o.path, z3.And([g == w for g, w in zip(got, want)] + [got[0] >= 0, got[0] < 24, got[1] >= 0, got[1] < 60, got[2] >= 0, got[2] < 60]),
+                  "the shown time is not the wall time (instant + zone offset) modulo 24 hours", rp)
+        texts = [x for e in o.path.events if e[0] == "text_args" for x in e[1]]
+        if not any(isinstance(x, StrV) and not x.is_concrete() and x.term().eq(name.term()) for x in texts):
+            ctx.failures.append(("TimeItem::print does not show the zone's name", {}, None))
+    if not n and not ctx.failures:
+        ctx.failures.append(("TimeItem::print: nothing decided", {}, None))
+
+
+
+# ============================================================================ C09: the printed date is the calendar date
+@spec("C09", "m_date_print", "DateItem::print (MIR; month names, padding and the format strings are observed, not executed): every day / month / year that reaches the text is read from a date whose day number is the item's own calendar date, for every date and every zone offset within -12 h..+14 h - the configured zone never moves a date to its neighbour")
+def _(ctx):
+    import re as _re6
+    ex = new_exec("real")
+    cnt = [0]
+
+    class DateTzV:
+        def __init__(self, days, off):
+            self.days, self.off = days, off
+
+    def h_from_utc_date(ex_, name, args, path, depth, caller):
+        tz, d = models.deref(args[0]), models.deref(args[1])
+        yield execmir_Outcome("return", path, DateTzV(d.days, tz.secs if isinstance(tz, models.OffsetV) else z3.IntVal(0)))
+
+    def h_datelike(ex_, name, args, path, depth, caller):
+        d = models.deref(args[0])
+        days = d.days if hasattr(d, "days") else None
+        if days is None and isinstance(d, models.ZonedV):
+            days = (d.utc.total() + d.off) / 86400        # floor: the local date of a zoned date-time
+        if days is None:
+            raise Unsupported("Datelike on %r" % (d,))
+        cnt[0] += 1
+        part = name.split("::")[-1]
+        t = z3.Int("%s%d" % (part, cnt[0]))
+        yield execmir_Outcome("return", path.event(("datelike", part, days)), IntV(t, 32, part == "year"))
+
+    def h_date_naive(ex_, name, args, path, depth, caller):
+        z = models.deref(args[0])
+        yield execmir_Outcome("return", path, DateV((z.utc.total() + z.off) / 86400))
+
+    def h_and_time(ex_, name, args, path, depth, caller):
+        d, t = models.deref(args[0]), models.deref(args[1])
+        yield execmir_Outcome("return", path, DateTimeV(d.days, t.secs if hasattr(t, "secs") else z3.IntVal(0)))
+
+    def h_text(ex_, name, args, path, depth, caller):
+        cnt[0] += 1
+        yield execmir_Outcome("return", path, StrV(z3.String("text%d" % cnt[0])))
+
+    def h_month_info(ex_, name, args, path, depth, caller):
+        cnt[0] += 1
+        yield execmir_Outcome("return", path, EnumV("Option", "Some", [SymV(ex_, "month_info%d" % cnt[0], "constants::MonthInfo")]))
+    add = lambda rx, fn_: ex.handlers.insert(0, (_re6.compile(rx), fn_))
+    add(r"^<FixedOffset as TimeZone>::from_utc_date$", h_from_utc_date)
+    add(r"^<(Date<.*>|NaiveDate|(chrono::)?NaiveDate|DateTime<.*>) as Datelike>::(year|month|day)$", h_datelike)
+    add(r"^DateTime::<.*>::date_naive$", h_date_naive)
+    add(r"^(chrono::)?NaiveDate::and_time$", h_and_time)
+    add(r"^DateTime::<Utc>::date$", models.h_identity0)
+    add(r"^(alloc|core)::str::<impl str>::replace::<.*>$|^<(u32|i32|i64|u8) as ToString>::to_string$|^(formatter::)?left_padding$|^(formatter::)?uppercase_first_letter$|^<Date<.*> as ToString>::to_string$|^<(chrono::)?NaiveDate as ToString>::to_string$", h_text)
+    add(r"^(formatter::)?get_month_info$", h_month_info)
+    me = SymV(ex, "self", "payload")
+    cfgv = SymV(ex, "config", "config::SmartCalcConfig")
+    sess = SymV(ex, "session", "session::Session")
+    fn = models.item_impl(ex, "DateItem", "print")
+    ctx.part.functions.append("compiler::date::print")
+    d = me.field(0, "chrono::NaiveDate")
+    off = me.field(1, "types::TimeOffset").field(1, "i32").t
+    ex.assumptions.append(z3.And(off >= -12 * 60, off <= 14 * 60))
+    rp = ("m_replay_date_print", [(off, "i32")])
+    n = 0
+    for o in ex.run(fn, [RefV(ItemV("DateItem", me)), RefV(cfgv), RefV(sess)], Path()):
+        ctx.paths += 1
+        if o.kind == "panic":
+            ctx.reachable(ex, o.path, "DateItem::print can panic: " + o.msg, rp)
+            continue
+        evs = [e for e in o.path.events if e[0] == "datelike"]
+        if not evs:
+            continue           # no format table for the language: prints "" / chrono's own text
+        # the year comparison with "now" reads the year of the current instant: not a reading of the item's date
+        own = [e for e in evs if not (z3.is_expr(e[2]) and "now" in e[2].sexpr())]
+        n += 1
+        for e in own:
+            ctx.claim(ex, o.path, e[2] == d.days, "the %s shown by DateItem::print is read from a date other than the item's calendar date" % e[1], rp)
+    if not n and not ctx.failures:
+        ctx.failures.append(("DateItem::print: no path reads the date", {}, None))
